@@ -47,6 +47,13 @@ Definition variables_list (ss : list sel) : list string := flat_map sel_variable
 Definition forwarded (client_vars : list (string * json)) (listed : list string) : list (string * json) :=
   flat_map (fun n => match assoc n client_vars with Some v => [(n, v)] | None => [] end) listed.
 
+(* ... and, for a follow-up step, the id of the object it extends, stored under the name `id` (variables[common.IDFieldName]) *)
+Definition step_variables (client_vars : list (string * json)) (listed : list string) (node_id : option string) : list (string * json) :=
+  match node_id with
+  | Some id => assoc_set "id" (JStr id) (forwarded client_vars listed)
+  | None => forwarded client_vars listed
+  end.
+
 (* variables that occur (at any depth) in ARGUMENT values / in DIRECTIVE argument values *)
 Fixpoint value_vars (v : value) : list string :=
   match v with
